@@ -461,7 +461,7 @@ impl<'a> Gen<'a> {
     fn field_ty(&mut self, depth: usize, allow_recv: bool) -> Ty {
         let r = self.rng.below(10) as u32;
         if allow_recv && depth < self.profile.max_depth && r < self.profile.p_nested {
-            if self.rng.chance(1, 8) {
+            if self.rng.chance(1, 4) {
                 return Ty::Recv(self.small_recv(depth + 1));
             }
             let is_enum = self.rng.chance(2, 5);
@@ -736,7 +736,7 @@ impl<'a> Gen<'a> {
                 self.recvs[id].inner_skip = true;
             }
             // a default of its own on the only field: what the newtype is when its item is absent
-            if matches!(self.recvs[id].shape, Shape::Newtype(Ty::Sc(_))) && !self.recvs[id].inner_skip && self.rng.chance(1, 4) {
+            if matches!(self.recvs[id].shape, Shape::Newtype(Ty::Sc(_))) && !self.recvs[id].inner_skip && self.rng.chance(1, 2) {
                 self.recvs[id].inner_default = if self.rng.coin() { Def::Trait } else { Def::Func };
             }
             // `skip` on the only field of a newtype over a type that meets what the documentation asks of
